@@ -191,7 +191,7 @@ def sort_oracle(n, lines, outs_lines):
 
 def e2e_params(r, tier, i):
     model = "nosv" if r.random() < 0.55 else "nanos6"
-    ncpus = r.choice([1, 1, 2, 2, 3, 4]) if tier == "quick" else r.choice([1, 2, 2, 3, 4, 6, 8])
+    ncpus = r.choice([1, 1, 2, 2, 3, 4, 4, 12]) if tier == "quick" else r.choice([1, 2, 2, 3, 4, 6, 8, 12, 20])
     nth = r.randrange(1, ncpus + 3)
     nprocs = 1 if r.random() < 0.7 else 2
     steps = r.choice([15, 30, 60, 120]) if tier == "quick" else r.choice([20, 60, 150, 400])
